@@ -1,7 +1,7 @@
 """Common body of the spec-class core checks (C01-C06): same pipeline, each keeps its own clauses."""
 from .. import common, specclass_run as R, tla
 
-ALL = ["scalars", "list_int", "set_str", "set_int", "dict_int", "nested", "nested_prep", "prepared", "list_spec", "klist", "dict_spec"]
+ALL = ["scalars", "list_int", "set_str", "set_int", "dict_int", "nested", "nested_prep", "prepared", "list_spec", "klist", "kset", "dict_spec"]
 ELEM = {"with_item", "update_item", "transform_item", "without_item"}
 
 
